@@ -1423,6 +1423,18 @@ func (e *cenv) specCall(sf *specFunc, args []val) val {
 		if !g.declared[name] {
 			g.declared[name] = true
 			g.emit(fmt.Sprintf("(declare-fun %s (%s) %s)", name, strings.Join(ss, " "), g.sortOf(rt)))
+			// an uninterpreted spec function with a machine integer result type
+			// takes values of that type only
+			if b, ok := rt.Underlying().(*types.Basic); ok && rt != types.Type(tMathInt) && rt != types.Type(tRef) && b.Info()&types.IsInteger != 0 && len(bs) > 0 {
+				var as []string
+				for _, p := range sf.params {
+					as = append(as, "a!"+p.name)
+				}
+				app := fmt.Sprintf("(%s %s)", name, strings.Join(as, " "))
+				if w := g.wf(app, rt, "", 0); w != "true" {
+					g.emit(fmt.Sprintf("(assert (forall (%s) (! %s :pattern (%s))))", strings.Join(bs, " "), w, app))
+				}
+			}
 		}
 	} else {
 		// Recursive spec function, possibly reading the heap.  One function symbol per
